@@ -32,6 +32,20 @@ def to_smt2(ob, use_lemmas=True):
 def _solve_one(args):
     idx, smt2 = args
     t0 = time.time()
+    # attempt 1: products of two unknowns treated as uninterpreted (sound for `unsat`: fewer axioms). Most VCs need
+    # only congruence on such products; this avoids the unstable nonlinear engine. Any other answer is discarded.
+    r = z3.unknown
+    if '(* ' in smt2:
+        s0 = z3.SolverFor('ALL') if False else z3.Solver()
+        s0.set('timeout', min(Z3_TIMEOUT_MS, 20000))
+        s0.set('random_seed', 1)
+        try:
+            s0.set('smt.arith.nl', False)
+            s0.from_string(smt2)
+            if s0.check() == z3.unsat:
+                return idx, 'proved', None, 'z3-api', time.time() - t0
+        except z3.Z3Exception:
+            pass
     s = z3.Solver()
     s.set('timeout', Z3_TIMEOUT_MS)
     s.set('random_seed', 1)
